@@ -226,6 +226,68 @@ func evalCase(c *runner.Ctx, fs []fieldSpec, msgMode bool, variant int, tagMode 
 	c.Sample(func() interface{} { return det() })
 }
 
+// evalContainers validates two objects of one synthesised type (same rules, different values) as elements of a
+// slice, as map entries held by value and by pointer, and as nested collections under a parent: one clause per
+// violated rule instance *per object*, group clauses judged on each object's own values.
+func evalContainers(c *runner.Ctx, fs, other []fieldSpec, msgMode bool) {
+	p1, _, desc := build(fs, msgMode, 0, true)
+	st := p1.Elem().Type()
+	p2 := reflect.New(st)
+	var od []string
+	for i, f := range other {
+		p2.Elem().Field(i).Set(reflect.ValueOf(f.val))
+		od = append(od, fmt.Sprint(f.val))
+	}
+	sl := reflect.MakeSlice(reflect.SliceOf(st), 2, 2)
+	sl.Index(0).Set(p1.Elem())
+	sl.Index(1).Set(p2.Elem())
+	mv := reflect.MakeMap(reflect.MapOf(reflect.TypeOf(""), st))
+	mv.SetMapIndex(reflect.ValueOf("a"), p1.Elem())
+	mv.SetMapIndex(reflect.ValueOf("b"), p2.Elem())
+	mp := reflect.MakeMap(reflect.MapOf(reflect.TypeOf(0), reflect.PtrTo(st)))
+	mp.SetMapIndex(reflect.ValueOf(1), p2)
+	mp.SetMapIndex(reflect.ValueOf(2), p1)
+	parent := reflect.New(reflect.StructOf([]reflect.StructField{
+		{Name: "Kids", Type: mv.Type(), Tag: `valid:"required"`},
+		{Name: "L", Type: sl.Type(), Tag: `valid:"exist"`},
+		{Name: "One", Type: st, Tag: `valid:"exist"`},
+	}))
+	parent.Elem().Field(0).Set(mv)
+	parent.Elem().Field(1).Set(sl)
+	parent.Elem().Field(2).Set(p2.Elem())
+	for _, in := range []struct {
+		place string
+		src   interface{}
+	}{{"[]T", sl.Interface()}, {"map[string]T", mv.Interface()}, {"map[int]*T", mp.Interface()}, {"parent{Kids map[string]T; L []T; One T}", parent.Interface()}} {
+		var err error
+		pan, msg, site := runner.Guard(func() { err = valid.Struct(in.src) })
+		exp := walk.Struct(in.src, walk.Opts{})
+		c.Done(len(exp.Fields)+len(exp.Groups) >= 2, 1)
+		det := func() map[string]interface{} {
+			return map[string]interface{}{"struct": desc, "other_values": od, "placement": in.place, "message_mode": msgMode}
+		}
+		if pan {
+			d := det()
+			d["panic"] = msg
+			c.Violation("panic@"+site, d)
+			continue
+		}
+		// the name of an unnamed struct type contains the clause separator: substitute it before clauses are split
+		if n := st.String(); strings.Contains(n, errparse.Sep) {
+			for i := range exp.Fields {
+				exp.Fields[i] = strings.ReplaceAll(exp.Fields[i], n, "T")
+			}
+			for i := range exp.Groups {
+				exp.Groups[i] = strings.ReplaceAll(exp.Groups[i], n, "T")
+			}
+			if err != nil {
+				err = fmt.Errorf("%s", strings.ReplaceAll(err.Error(), n, "T"))
+			}
+		}
+		compare(c, exp, err, det, true)
+	}
+}
+
 func run(c *runner.Ctx) {
 	// F1: one field, lists up to length 3, all empty-item renderings, all kinds and values, both modes, tag and per-call
 	l3 := lists(3)
@@ -272,6 +334,11 @@ func run(c *runner.Ctx) {
 							mm := (len(it0)+len(it1)+vi0+vi1)%2 == 0
 							evalCase(c, []fieldSpec{{k0, it0, v0}, {k1, it1, v1}}, mm, 0, true)
 							evalCase(c, []fieldSpec{{k0, it0, v0}, {k1, it1, v1}}, !mm, 0, false)
+							if len(it0)+len(it1) > 0 && (c.Thorough() || len(it0) <= 1) {
+								o0 := kinds[k0].vals[(vi0+1)%len(kinds[k0].vals)]
+								o1 := kinds[k1].vals[(vi1+1)%3]
+								evalContainers(c, []fieldSpec{{k0, it0, v0}, {k1, it1, v1}}, []fieldSpec{{k0, it0, o0}, {k1, it1, o1}}, mm)
+							}
 						}
 					}
 				}
@@ -307,7 +374,7 @@ func main() {
 		Property:  "C02",
 		Technique: "bounded-exhaustive enumeration of synthesised struct types x rule lists x values vs walk reference model (exact clause strings, order, separators)",
 		Rule: "struct types from reflect.StructOf: 1 field (all rule lists of length<=3 over {required,to=2~3,eq=2,in=(a/b),phone,zz(unknown),either=1,botheq=1}, rendered plainly and with empty items, kinds string/int32/[]int32, 3-5 values), " +
-			"2 fields (lists<=2 x lists<=1|2), 3 fields (lists<=1); rules declared in tags and supplied per call; unique custom messages (message mode) and default wording; " +
+			"2 fields (lists<=2 x lists<=1|2), 3 fields (lists<=1); rules declared in tags and supplied per call; every 2-field type additionally as two objects with different values in []T, map[string]T (entries by value), map[int]*T and nested under a parent (map, slice and value fields); unique custom messages (message mode) and default wording; " +
 			"expected = ordered field clauses then group clauses (multiset); non-trivial = cases with >=2 expected clauses",
 		Assumptions: []string{"walk model internal/walk is the statement of C02/C04/C16/C17", "group clauses compared as a multiset (Go map order)"},
 		Run:         run,
